@@ -28,6 +28,11 @@ Inductive case :=
 | CJUtxo (j : utxo_j) (ok : bool) (txid_hex : string) (vout : N) (lock_hex : string) (sats : N)
 | CJNodeUtxo (j : utxo_node_j) (ok : bool) (txid_hex : string) (vout : N) (lock_hex : string) (sats : N).
 
+(** TotalAlloc is process-wide: a GC cycle starting its workers or refilling a pool inside the
+    measured window adds a few KB that are not the decoder's (observed: about 2.3 KB, once in
+    ~80 000 cases even with the smaller of several runs reported) *)
+Definition noise_allowance : N := 4096.
+
 Definition proj {A} (r : ares A) : option (bool * N * N) :=
   match r with
   | AOk _ n _ al => Some (true, n, al)
@@ -70,8 +75,10 @@ Definition check (c : case) : bool :=
       match run e b with
       | Some (mok, mused, malloc) =>
           Bool.eqb ok mok && (used =? mused) &&
-          (* the allocation model over-approximates what the runtime did; and the theorem's bound holds *)
-          (alloc <=? malloc) && (alloc <=? alloc_bound (lenN b)) &&
+          (* the allocation model over-approximates what the runtime did (up to the runtime's own
+             one-off allocations, which TotalAlloc also counts: [noise_allowance]); and the
+             theorem's bound holds *)
+          (alloc <=? malloc + noise_allowance) && (alloc <=? alloc_bound (lenN b)) &&
           (match e with ETx => Bool.eqb fb (mok && (mused =? lenN b)) | _ => true end)
       | None => false
       end
